@@ -10,6 +10,10 @@ done={
        "note":"Trusted: Coq kernel + vm_compute, std++; hand-written model; simulated peer, scripted ACL and signing code of the harness. Not verified: the legacy non-protobuf branch of checkNonce; immediate (NBTx) methods do not check nonces (excluded by the property)."},
 "C19":{"text":"Theorems for all amounts and configurations: closed form of the fee (share rounded down, rate conversion, floor, cap), bounds and monotonicity, setFee guard, exact settlement of the three legs of a transfer (with coinciding parties) and of buy/buy-back at amount*rate/10^8 within limits, failure leaves the state unchanged, balances never negative over any history. Tied to the code by signed operations through real batches on the base token with amounts at the break points of each configuration; error class and the complete balance projection after every operation, token metadata and predictFee are compared with the model and checked against the closed forms inside Coq.",
        "note":"Trusted: Coq kernel + vm_compute, std++; hand-written model; simulated peer/ACL/signing and ledger projection of the harness. Per-transaction atomicity is C04's subject (the model returns the old state on error). User ids come from the scripted ACL."},
+"C16":{"text":"Theorems over all histories of put/add/sub/move in transactions that read their own writes or run on a raw stub, committed or discarded, interleaved with createIndex and queries: the owners listing of a (kind, token) is exactly the set of addresses with non-zero balance with the amounts of a direct read - from the empty ledger, and from un-indexed legacy data once createIndex ran; createIndex changes no balance. Tied to the code by histories over core/balance through the real tx/batch caches and raw stubs of the simulated peer, createIndex through Invoke, with prefix-related address/token names; listings, direct reads and the final primary/inverse/flag projection are compared inside Coq.",
+       "note":"Trusted: Coq kernel + vm_compute, std++; hand-written model; simulated peer (range scans in byte order, end-exclusive) and projection of the harness. Listing order is not part of the property (compared as sorted lists)."},
+"C13":{"text":"Theorems over all histories of lock/unlock requests (any sender, id, amount) whose unlock requests name the lock's own address: locked balance = sum of remaining amounts of the address's locks (gmap sum invariant), every lock has 0 < remaining = initial - unlocked, exact settlement of every successful request (only the two balances of that address move, by the amount), rejections of over-unlock/unknown/duplicate/non-admin. Tied to the code by signed requests of the admin and others through real batches; error class, all balances and all lock records after every request are compared with the model and checked against the property inside Coq.",
+       "note":"Trusted: Coq kernel + vm_compute, std++; hand-written model; harness (peer, ACL, signing, projection). Unlock uses the address given in the request (modelled as such); the theorems quantify over requests naming the lock's own address, as the property does. Non-numeric amounts are only checked to be rejected without effect."},
 }
 checks=[];na=[]
 for p in props:
